@@ -137,4 +137,255 @@ Proof. intros Hp Ht. unfold C14_DataGen.rn2data. destruct (rn2d_go ps 0 r O) as 
   exfalso. destruct (top_some _ _ _ E) as (Hl & Hlt & _). apply (lt_irrefl_le _ _ Hlt).
   apply (k_trans F _ (total ps)); [|exact Ht]. rewrite <- (cum_all ps (length ps)) by lia. apply cum_mono; [exact Hp|lia]. Qed.
 
+(* ------------------------------------------------------------------ numbers -> field *)
+Lemma fpos_succ p : fpos (Pos.succ p) = fpos p + 1.
+Proof. induction p as [p IH|p IH|]; cbn [Pos.succ C14_DataGen.fpos]; try rewrite IH; ring. Qed.
+Lemma fnat_0 : fnat O = 0. Proof. reflexivity. Qed.
+Lemma fnat_S n : fnat (S n) = fnat n + 1.
+Proof. unfold C14_DataGen.fnat. destruct n as [|n]; cbn [Z.of_nat Pos.of_succ_nat C14_DataGen.fz C14_DataGen.fpos]. { ring. }
+  apply fpos_succ. Qed.
+Lemma fnat_add a b : fnat (a + b) = fnat a + fnat b.
+Proof. induction a as [|a IH]; cbn [Nat.add]. { rewrite fnat_0; ring. } rewrite !fnat_S, IH. ring. Qed.
+Lemma fnat_nonneg n : 0 <= fnat n.
+Proof. induction n as [|n IH]. { apply k_refl. } rewrite fnat_S. apply add_nonneg; [exact IH|apply one_nonneg]. Qed.
+Lemma fnat_pos n : (0 < n)%nat -> fnat n <> 0.
+Proof. destruct n as [|n]; [lia|]. intros _ E. rewrite fnat_S in E.
+  pose proof (k_add F _ _ 1 (fnat_nonneg n)) as A. rewrite E in A. replace (0 + 1) with 1 in A by ring.
+  apply (one_neq_zero F). apply (k_antisym F); [exact A|apply one_nonneg]. Qed.
+Lemma fnat_mono a b : (a <= b)%nat -> fnat a <= fnat b.
+Proof. intros H. replace b with (a + (b - a))%nat by lia. rewrite fnat_add. apply le_add_r, fnat_nonneg. Qed.
+Lemma fz_nat z : (0 <= z)%Z -> fz z = fnat (Z.to_nat z).
+Proof. intros H. unfold C14_DataGen.fnat. now rewrite Z2Nat.id. Qed.
+Lemma fz_add a b : (0 <= a)%Z -> (0 <= b)%Z -> fz (a + b) = fz a + fz b.
+Proof. intros Ha Hb. rewrite !fz_nat by lia. rewrite Z2Nat.inj_add by lia. apply fnat_add. Qed.
+Lemma div_nonneg x y : 0 <= x -> 0 <= y -> y <> 0 -> 0 <= x / y.
+Proof. intros Hx Hy Hn. replace (x / y) with (x * (1 / y)) by (field; exact Hn). apply k_mul; [exact Hx|]. now apply inv_nonneg. Qed.
+
+(* ------------------------------------------------------------------ counting *)
+Lemma countz_app l d x : countz (l ++ [d]) x = (countz l x + (if Z.eq_dec d (Z.of_nat x) then 1 else 0))%nat.
+Proof. unfold countz. rewrite count_occ_app. cbn [count_occ]. destruct (Z.eq_dec d (Z.of_nat x)); lia. Qed.
+Lemma countz_cons l d x : countz (d :: l) x = ((if Z.eq_dec d (Z.of_nat x) then 1 else 0) + countz l x)%nat.
+Proof. unfold countz. cbn [count_occ]. destruct (Z.eq_dec d (Z.of_nat x)); lia. Qed.
+Lemma bump_map (f : nat -> nat) : forall m s k,
+  bump (map f (seq s m)) k = map (fun x => if Nat.eqb x (s + k) then S (f x) else f x) (seq s m).
+Proof. induction m as [|m IH]; intros s k; [destruct k; reflexivity|]. cbn [seq map]. destruct k as [|k]; cbn [bump].
+  - rewrite Nat.add_0_r, Nat.eqb_refl. f_equal. apply map_ext_in. intros x Hx. apply in_seq in Hx.
+    destruct (Nat.eqb_spec x s); [lia|reflexivity].
+  - destruct (Nat.eqb_spec s (s + S k)); [lia|]. f_equal. rewrite IH. apply map_ext. intros x.
+    replace (S s + k)%nat with (s + S k)%nat by lia. reflexivity. Qed.
+Lemma bump_counts m' pre d : (0 <= d)%Z -> bump (counts m' pre) (Z.to_nat d) = counts m' (pre ++ [d]).
+Proof. intros Hd. unfold counts. rewrite bump_map. apply map_ext. intros x. rewrite countz_app. cbn [Nat.add].
+  destruct (Nat.eqb_spec x (Z.to_nat d)) as [E|E]; destruct (Z.eq_dec d (Z.of_nat x)) as [E'|E']; lia. Qed.
+Lemma counts_nil m' : counts m' [] = repeat O m'.
+Proof. unfold counts. assert (H : forall s, map (countz []) (seq s m') = repeat O m').
+  { induction m' as [|m' IH]; intros s; [reflexivity|]. cbn [seq map repeat]. now rewrite IH. }
+  apply H. Qed.
+Lemma counts_length m' l : length (counts m' l) = m'.
+Proof. unfold counts. now rewrite map_length, seq_length. Qed.
+Lemma nth_counts m' l x : nth x (counts m' l) O = if (x <? m')%nat then countz l x else O.
+Proof. unfold counts. destruct (Nat.ltb_spec x m') as [L|L].
+  - rewrite (nth_indep _ O (countz l O)) by (now rewrite map_length, seq_length).
+    rewrite map_nth, seq_nth by exact L. reflexivity.
+  - apply nth_overflow. now rewrite map_length, seq_length. Qed.
+Lemma list_sum_cons a l : list_sum (a :: l) = (a + list_sum l)%nat. Proof. reflexivity. Qed.
+Lemma list_sum_map_add {A} (f g : A -> nat) l :
+  list_sum (map (fun x => (f x + g x)%nat) l) = (list_sum (map f l) + list_sum (map g l))%nat.
+Proof. induction l as [|a l IH]; [reflexivity|]. cbn [map]. rewrite !list_sum_cons, IH. lia. Qed.
+Lemma sum_indicator d : forall m s,
+  list_sum (map (fun x => if Z.eq_dec d (Z.of_nat x) then 1%nat else O) (seq s m)) =
+  if ((Z.of_nat s <=? d) && (d <? Z.of_nat (s + m)))%Z then 1%nat else O.
+Proof. induction m as [|m IH]; intros s; cbn [seq map]; rewrite ?list_sum_cons.
+  - cbn [list_sum fold_right]. destruct (Z.leb_spec (Z.of_nat s) d), (Z.ltb_spec d (Z.of_nat (s + 0))); cbn [andb]; try reflexivity; lia.
+  - rewrite IH. destruct (Z.eq_dec d (Z.of_nat s)), (Z.leb_spec (Z.of_nat (S s)) d), (Z.ltb_spec d (Z.of_nat (S s + m))),
+      (Z.leb_spec (Z.of_nat s) d), (Z.ltb_spec d (Z.of_nat (s + S m))); cbn [andb]; lia. Qed.
+Lemma counts_sum m' l : Forall (fun d => (0 <= d < Z.of_nat m')%Z) l -> list_sum (counts m' l) = length l.
+Proof. induction l as [|d l IH]; intros H.
+  - rewrite counts_nil. clear. induction m' as [|m' IH]; [reflexivity|]. cbn [repeat]. rewrite list_sum_cons, IH. reflexivity.
+  - inversion H as [|? ? Hd Hl]; subst. unfold counts.
+    rewrite (map_ext _ (fun x => ((if Z.eq_dec d (Z.of_nat x) then 1 else 0) + countz l x)%nat)) by (intros; apply countz_cons).
+    rewrite list_sum_map_add, sum_indicator. fold (counts m' l). rewrite IH by exact Hl. cbn [length Nat.add Z.of_nat].
+    destruct (Z.leb_spec 0 d), (Z.ltb_spec d (Z.of_nat m')); cbn [andb]; lia. Qed.
+Lemma countz_firstn_mono l a b x : (a <= b)%nat -> (countz (firstn a l) x <= countz (firstn b l) x)%nat.
+Proof. intros H. replace (firstn a l) with (firstn a (firstn b l)) by (rewrite firstn_firstn; f_equal; lia).
+  rewrite <- (firstn_skipn a (firstn b l)) at 2. unfold countz. rewrite count_occ_app. lia. Qed.
+
+Lemma fnat_list_sum l : fnat (list_sum l) = lsum (map fnat l).
+Proof. induction l as [|a l IH]. { reflexivity. } cbn [map]. rewrite list_sum_cons, fnat_add, lsum_cons, IH. reflexivity. Qed.
+Lemma lsum_map_div {A} (f : A -> F) y l : y <> 0 -> lsum (map (fun c => f c / y) l) = lsum (map f l) / y.
+Proof. intros Hy. induction l as [|a l IH]; cbn [map]. { rewrite lsum_nil. field. exact Hy. }
+  rewrite !lsum_cons, IH. field. exact Hy. Qed.
+
+(* an empirical distribution built from a count vector that sums to n > 0 *)
+Lemma empi_of_valid cf n : (0 < n)%nat -> list_sum cf = n ->
+  length (empi_of F cf n) = length cf /\ Forall (kle F 0) (empi_of F cf n) /\ lsum (empi_of F cf n) = 1.
+Proof. intros Hn Hs. pose proof (fnat_pos n Hn) as Hne. unfold empi_of. split; [apply map_length|]. split.
+  - apply Forall_forall. intros e He. apply in_map_iff in He. destruct He as (c & <- & _).
+    apply div_nonneg; [apply fnat_nonneg|apply fnat_nonneg|exact Hne].
+  - rewrite (lsum_map_div fnat) by exact Hne. rewrite <- fnat_list_sum, Hs. field. exact Hne. Qed.
+
+(* ------------------------------------------------------------------ calc_empi_dist_sequence *)
+Notation empi_loop := (empi_loop F). Notation empi_seq := (empi_seq F). Notation empi_spec := (empi_spec F).
+Notation empi_of := (empi_of F).
+
+Lemma incr_last rest : forall next, incr_from next rest -> (next <= last (next :: rest) 0)%Z.
+Proof. induction rest as [|x rest IH]; intros next H; [cbn; lia|].
+  destruct H as [A B]. specialize (IH _ B). change (last (next :: x :: rest) 0%Z) with (last (x :: rest) 0%Z). lia. Qed.
+
+Lemma inr_true m d : (0 <= d < m)%Z -> negb ((0 <=? d)%Z && (d <? m)%Z) = false.
+Proof. intros H. apply negb_false_iff, andb_true_iff. split; [apply Z.leb_le|apply Z.ltb_lt]; lia. Qed.
+
+(* forward: on a well-formed request the loop emits exactly the specified prefix distributions *)
+Lemma loop_ok m len data : len = Z.of_nat (length data) ->
+  forall data' pre idx cf next rest acc,
+  data = pre ++ data' -> idx = length pre -> cf = counts (Z.to_nat m) pre ->
+  (Z.of_nat idx < next)%Z -> incr_from next rest -> Forall (fun n => (n <= len)%Z) (next :: rest) ->
+  Forall (fun d => (0 <= d < m)%Z) (firstn (Z.to_nat (last (next :: rest) 0%Z) - idx) data') ->
+  empi_loop m len data' idx cf next rest acc = EOk (rev acc ++ map (empi_spec m data) (next :: rest)).
+Proof. intros Hlen. induction data' as [|d data' IH]; intros pre idx cf next rest acc Hd Hi Hcf Hlt Hinc Hle Hval.
+  - exfalso. rewrite app_nil_r in Hd. subst pre. inversion Hle; subst. lia.
+  - cbn [C14_DataGen.empi_loop].
+    pose proof (incr_last _ _ Hinc) as HL.
+    replace (Z.to_nat (last (next :: rest) 0%Z) - idx)%nat with (S (Z.to_nat (last (next :: rest) 0%Z) - S idx)) in Hval by lia.
+    rewrite firstn_cons in Hval. inversion Hval as [|? ? Hdv Hval']; subst.
+    rewrite (inr_true _ _ Hdv).
+    assert (Hcf' : bump (counts (Z.to_nat m) pre) (Z.to_nat d) = counts (Z.to_nat m) (pre ++ [d])) by (apply bump_counts; lia).
+    assert (Hd' : pre ++ d :: data' = (pre ++ [d]) ++ data') by (now rewrite <- app_assoc).
+    assert (Hi' : S (length pre) = length (pre ++ [d])) by (rewrite app_length; cbn; lia).
+    destruct (Z.eqb_spec (Z.of_nat (S (length pre))) next) as [En|Nn].
+    + assert (Hx : (next, empi_of (bump (counts (Z.to_nat m) pre) (Z.to_nat d)) (S (length pre))) = empi_spec m (pre ++ d :: data') next).
+      { unfold C14_DataGen.empi_spec. replace (Z.to_nat next) with (S (length pre)) by lia.
+        rewrite Hcf'. rewrite firstn_app, firstn_all2 by lia. replace (S (length pre) - length pre)%nat with 1%nat by lia.
+        rewrite firstn_cons, firstn_O. reflexivity. }
+      destruct rest as [|nx rest'].
+      * cbn [rev map]. now rewrite Hx.
+      * destruct Hinc as [Hn Hinc']. inversion Hle as [|? ? Hle1 Hle2]; subst. inversion Hle2 as [|? ? Hle3 Hle4]; subst.
+        destruct (Z.ltb_spec (Z.of_nat (length (pre ++ d :: data'))) nx) as [B|_]; [lia|].
+        destruct (Z.leb_spec nx (Z.of_nat (S (length pre)))) as [B|_]; [lia|].
+        rewrite (IH (pre ++ [d]) (S (length pre)) _ nx rest' _ Hd' Hi' Hcf'); try assumption; try lia.
+        { rewrite Hx. cbn [rev map]. rewrite <- app_assoc. reflexivity. }
+    + rewrite (IH (pre ++ [d]) (S (length pre)) _ next rest acc Hd' Hi' Hcf'); try assumption; try lia. reflexivity. Qed.
+
+(* backward: a successful run implies the request was well-formed *)
+Lemma loop_inv m len : forall data' idx cf next rest acc out,
+  len = (Z.of_nat idx + Z.of_nat (length data'))%Z -> (Z.of_nat idx < next)%Z -> (next <= len)%Z ->
+  empi_loop m len data' idx cf next rest acc = EOk out ->
+  incr_from next rest /\ Forall (fun n => (n <= len)%Z) rest /\
+  Forall (fun d => (0 <= d < m)%Z) (firstn (Z.to_nat (last (next :: rest) 0%Z) - idx) data').
+Proof. induction data' as [|d data' IH]; intros idx cf next rest acc out Hlen Hlt Hle H.
+  - cbn [length] in Hlen. lia.
+  - cbn [C14_DataGen.empi_loop] in H.
+    destruct ((0 <=? d)%Z && (d <? m)%Z) eqn:Eb; cbn [negb] in H; [|discriminate].
+    apply andb_true_iff in Eb. destruct Eb as [Eb1 Eb2]. apply Z.leb_le in Eb1. apply Z.ltb_lt in Eb2.
+    cbn [length] in Hlen.
+    destruct (Z.eqb_spec (Z.of_nat (S idx)) next) as [En|Nn].
+    + destruct rest as [|nx rest'].
+      * split; [exact I|]. split; [constructor|]. cbn [last]. replace (Z.to_nat next - idx)%nat with 1%nat by lia.
+        rewrite firstn_cons, firstn_O. constructor; [lia|constructor].
+      * destruct (Z.ltb_spec len nx) as [_|B1]; [discriminate|]. destruct (Z.leb_spec nx next) as [_|B2]; [discriminate|].
+        apply IH in H; [|lia|lia|exact B1]. destruct H as (A1 & A2 & A3).
+        pose proof (incr_last _ _ A1) as HL.
+        split; [split; [lia|exact A1]|]. split; [constructor; assumption|].
+        change (last (next :: nx :: rest') 0%Z) with (last (nx :: rest') 0%Z).
+        replace (Z.to_nat (last (nx :: rest') 0%Z) - idx)%nat with (S (Z.to_nat (last (nx :: rest') 0%Z) - S idx)) by lia.
+        rewrite firstn_cons. constructor; [lia|exact A3].
+    + apply IH in H; [|lia|lia|exact Hle]. destruct H as (A1 & A2 & A3).
+      pose proof (incr_last _ _ A1) as HL.
+      split; [exact A1|]. split; [exact A2|].
+      replace (Z.to_nat (last (next :: rest) 0%Z) - idx)%nat with (S (Z.to_nat (last (next :: rest) 0%Z) - S idx)) by lia.
+      rewrite firstn_cons. constructor; [lia|exact A3]. Qed.
+
+(* a first sample size <= 0 is never matched: every datum is validated and nothing is emitted *)
+Lemma loop_never m len : forall data' idx cf next rest acc, (next <= Z.of_nat idx)%Z ->
+  empi_loop m len data' idx cf next rest acc = if forallb (in_rangeb m) data' then EOk (rev acc) else EErr 3.
+Proof. induction data' as [|d data' IH]; intros idx cf next rest acc H; [reflexivity|].
+  cbn [C14_DataGen.empi_loop forallb]. unfold in_rangeb at 1.
+  destruct ((0 <=? d)%Z && (d <? m)%Z); cbn [negb andb]; [|reflexivity].
+  destruct (Z.eqb_spec (Z.of_nat (S idx)) next) as [En|Nn]; [lia|]. apply IH. lia. Qed.
+
+Theorem empi_seq_spec m data ns : empi_pre m data ns -> empi_seq m data ns = EOk (map (empi_spec m data) ns).
+Proof. intros (Hm & Hinc & Hle & Hval). unfold C14_DataGen.empi_seq.
+  destruct (Z.ltb_spec m 0) as [B|_]; [lia|]. destruct ns as [|n0 rest]; [reflexivity|].
+  destruct Hinc as [Hn Hinc]. inversion Hle as [|? ? Hle1 Hle2]; subst.
+  destruct (Z.ltb_spec (Z.of_nat (length data)) n0) as [B|_]; [lia|].
+  rewrite (loop_ok m _ data eq_refl data [] O _ n0 rest []); try reflexivity; try assumption.
+  - now rewrite counts_nil.
+  - now rewrite Nat.sub_0_r. Qed.
+
+Theorem empi_seq_ok_inv m data ns out : (0 < hd 1%Z ns)%Z -> empi_seq m data ns = EOk out -> empi_pre m data ns.
+Proof. intros Hh H. unfold C14_DataGen.empi_seq in H. destruct (Z.ltb_spec m 0) as [_|Hm]; [discriminate|].
+  destruct ns as [|n0 rest]. { repeat split; try assumption; constructor. }
+  cbn [hd] in Hh. destruct (Z.ltb_spec (Z.of_nat (length data)) n0) as [_|B]; [discriminate|].
+  apply loop_inv in H; [|cbn [Z.of_nat]; lia|cbn [Z.of_nat]; lia|exact B]. destruct H as (A1 & A2 & A3).
+  split; [exact Hm|]. split; [split; [exact Hh|exact A1]|]. split; [constructor; assumption|].
+  now rewrite Nat.sub_0_r in A3. Qed.
+
+Theorem empi_seq_nonpositive_first m data n0 rest : (0 <= m)%Z -> (n0 <= 0)%Z ->
+  empi_seq m data (n0 :: rest) = if forallb (in_rangeb m) data then EOk [] else EErr 3.
+Proof. intros Hm Hn. unfold C14_DataGen.empi_seq. destruct (Z.ltb_spec m 0) as [B|_]; [lia|].
+  destruct (Z.ltb_spec (Z.of_nat (length data)) n0) as [B|_]; [lia|]. rewrite loop_never by (cbn [Z.of_nat]; lia). reflexivity. Qed.
+
+Theorem empi_seq_negative_measurement_num m data ns : (m < 0)%Z -> empi_seq m data ns = EErr 1.
+Proof. intros H. unfold C14_DataGen.empi_seq. destruct (Z.ltb_spec m 0); [reflexivity|lia]. Qed.
+
+(* every specified member is a genuine empirical distribution *)
+Theorem empi_spec_valid m data n : (0 <= m)%Z -> (0 < n <= Z.of_nat (length data))%Z ->
+  Forall (fun d => (0 <= d < m)%Z) (firstn (Z.to_nat n) data) ->
+  length (snd (empi_spec m data n)) = Z.to_nat m /\ Forall (kle F 0) (snd (empi_spec m data n)) /\
+  lsum (snd (empi_spec m data n)) = 1.
+Proof. intros Hm Hn Hv. unfold C14_DataGen.empi_spec. cbn [snd].
+  assert (Hs : list_sum (counts (Z.to_nat m) (firstn (Z.to_nat n) data)) = Z.to_nat n).
+  { rewrite counts_sum. { rewrite firstn_length. lia. }
+    eapply Forall_impl; [|exact Hv]. cbn beta. intros d Hd. lia. }
+  destruct (empi_of_valid _ (Z.to_nat n) ltac:(lia) Hs) as (A & B & C). rewrite counts_length in A. auto. Qed.
+
+Lemma nth_map_default {A} (f : A -> F) l x d : f d = 0 -> nth x (map f l) 0 = f (nth x l d).
+Proof. intros <-. apply map_nth. Qed.
+
+(* members of one sequence are consistent: counts of a prefix never exceed those of a longer prefix *)
+Theorem empi_spec_consistent m data n n' x : (0 < n <= n')%Z ->
+  fz n * nth x (snd (empi_spec m data n)) 0 <= fz n' * nth x (snd (empi_spec m data n')) 0.
+Proof. intros Hn. unfold C14_DataGen.empi_spec, C14_DataGen.empi_of. cbn [snd].
+  assert (E : forall k, (0 < k)%Z -> fz k * nth x (map (fun c => fnat c / fnat (Z.to_nat k)) (counts (Z.to_nat m) (firstn (Z.to_nat k) data))) 0
+              = fnat (nth x (counts (Z.to_nat m) (firstn (Z.to_nat k) data)) O)).
+  { intros k Hk. pose proof (fnat_pos (Z.to_nat k) ltac:(lia)) as Hne.
+    rewrite (nth_map_default (fun c => fnat c / fnat (Z.to_nat k)) _ x O) by (rewrite fnat_0; field; exact Hne).
+    rewrite fz_nat by lia. field. exact Hne. }
+  rewrite !E by lia. apply fnat_mono. rewrite !nth_counts. destruct (x <? Z.to_nat m)%nat; [|lia].
+  apply countz_firstn_mono. lia. Qed.
+
+(* multinomial counts divided by the sample size *)
+Lemma zsum_nonneg l : Forall (fun c => (0 <= c)%Z) l -> (0 <= fold_right Z.add 0%Z l)%Z.
+Proof. induction 1; cbn [fold_right]; lia. Qed.
+Theorem multi_to_empi_valid n cnt : (0 < n)%Z -> Forall (fun c => (0 <= c)%Z) cnt -> fold_right Z.add 0%Z cnt = n ->
+  fst (multi_to_empi F n cnt) = n /\ length (snd (multi_to_empi F n cnt)) = length cnt /\
+  Forall (kle F 0) (snd (multi_to_empi F n cnt)) /\ lsum (snd (multi_to_empi F n cnt)) = 1 /\
+  (forall i, nth i cnt 0%Z = 0%Z -> nth i (snd (multi_to_empi F n cnt)) 0 = 0).
+Proof. intros Hn Hc Hs. unfold C14_DataGen.multi_to_empi. cbn [fst snd].
+  assert (Hne : fz n <> 0). { rewrite fz_nat by lia. apply fnat_pos. lia. }
+  split; [reflexivity|]. split; [apply map_length|]. split; [|split].
+  - apply Forall_forall. intros e He. apply in_map_iff in He. destruct He as (c & <- & Hin).
+    rewrite Forall_forall in Hc. specialize (Hc _ Hin).
+    apply div_nonneg; [rewrite fz_nat by lia; apply fnat_nonneg|rewrite fz_nat by lia; apply fnat_nonneg|exact Hne].
+  - rewrite (lsum_map_div fz) by exact Hne. rewrite <- Hs.
+    assert (E : lsum (map fz cnt) = fz (fold_right Z.add 0%Z cnt)).
+    { clear Hs. induction Hc as [|c l Hc0 Hl IH]; [reflexivity|]. cbn [map fold_right]. rewrite lsum_cons, IH.
+      rewrite fz_add; [reflexivity|lia|now apply zsum_nonneg]. }
+    rewrite E, Hs. field. exact Hne.
+  - intros i Hi. rewrite (nth_map_default (fun c => fz c / fz n) _ i 0%Z) by (cbn [C14_DataGen.fz]; field; exact Hne).
+    rewrite Hi. cbn [C14_DataGen.fz]. field. exact Hne. Qed.
+
 End P.
+
+(* FINDING C14-1 in exact arithmetic: a probability vector ACCEPTED by validate_prob_dist (its sum is within atol of 1) and a
+   random number in [0,1) for which the generated datum is an outcome of probability exactly 0.  Over the executed field Qc. *)
+From Coq Require Import QArith Qcanon.
+From QV.Core Require Import QcOF.
+Definition wit_eps : Qc := Q2Qc (1 # 17592186044416).          (* 2^-44 *)
+Definition wit_ps : list Qc := [(1 - wit_eps)%Qc; 0%Qc].
+Definition wit_r : Qc := (1 - wit_eps)%Qc.
+Lemma zero_probability_outcome_reachable_qc :
+  gen_data Qc_OF wit_eps wit_ps [wit_r] = MOk [1%Z] /\ nth 1 wit_ps 1%Qc = 0%Qc /\
+  kle Qc_OF 0%Qc wit_r /\ klt Qc_OF wit_r 1%Qc.
+Proof. split; [vm_compute; reflexivity|]. split; [reflexivity|]. split.
+  - apply (proj1 (k_leb Qc_OF _ _)). vm_compute. reflexivity.
+  - split; [apply (proj1 (k_leb Qc_OF _ _)); vm_compute; reflexivity|]. intros H. apply (f_equal (fun x : Qc => Qnum (this x))) in H. vm_compute in H. discriminate H. Qed.
